@@ -30,6 +30,7 @@ type BankKeeper interface {
 	SetDenomMetaData(goCtx context.Context, denomMetaData banktypes.Metadata)
 	GetDenomMetaData(ctx context.Context, denom string) (banktypes.Metadata, bool)
 	SendCoins(goCtx context.Context, fromAddr sdk.AccAddress, toAddr sdk.AccAddress, amt sdk.Coins) error
+	BlockedAddr(addr sdk.AccAddress) bool
 	// Methods imported from bank should be defined here
 }
 
